@@ -558,7 +558,16 @@ def ser_with_sym(ctx):
             s = ty.get('s', '')
             if 'Vec<(K, V)>' in s:
                 d_ok = True
-    coll = any(is_call(st, ('collect', 'from_iter')) for st in subterms(rt))
+    # .. and every decoded pair reaches the map: collect / from_iter over the whole vector (no positional adaptor, no filter)
+    coll = False
+    for st in subterms(rt):
+        if is_call(st, ('collect', 'from_iter')) and st[2]:
+            src = st[2][-1]
+            base, kind_, clo_ = iter_source(src)
+            b0 = drop_lv(base)
+            whole = not clo_ and not (set(iter_adaptors(src)) & (LOSSY_ADAPTORS | {'rev', 'chain', 'zip'}))
+            if whole and any(is_call(x, 'deserialize') for x in subterms(b0)):
+                coll = True
     ctx.check(s_ok and d_ok and coll, 'btreemap_as_vec', sb, 'Vec<(K,V)> written from every entry and read back into a map',
               'btreemap_as_vec: serialize %s a Vec of pairs of every entry, deserialize %s a Vec<(K, V)>%s'
               % ('emits' if s_ok else 'does NOT emit', 'reads' if d_ok else 'does NOT read', '' if coll else ' and does not collect it'))
